@@ -47,7 +47,7 @@ man = {
     "engines": [{
         "name": "lean-proof+correspondence", "path": "bin/verifcheck.py",
         "serves_properties": [c["property_id"] for c in checks],
-        "kind_free_text": "Lean 4 theorems about hand-written executable models (lean/OnetVerif), audited with #print axioms on every run; a Go harness (harness/, built from /repo's working tree with -tags verif) drives the real code and the compiled Lean model with the same operation sequences and diffs canonical observations; the harness also evaluates each property's own oracle to find failing inputs",
+        "kind_free_text": "Lean 4 theorems about hand-written executable models (lean/OnetVerif), audited with #print axioms on every run; a Go harness (harness/, built from /repo's working tree with -tags verif) drives the real code and the compiled Lean model with the same operation sequences and diffs canonical observations; the harness also evaluates each property's own oracle to find failing inputs; three regenerated ties are re-derived from /repo's source on every run and compared by kernel-checked theorems: pure functions translated to Lean definitions and proved equal to the model (harness/cmd/go2lean -> Gen/*.lean, Props/*Gen.lean), call/condition/assignment sequences of the modelled functions (harness/cmd/astfacts -> Shapes.lean, pinned by rfl in Props/*.lean), and per file a property is anchored in the hash of every function's full shape (Ties.lean, pinned in Props/*Tie.lean)",
     }],
     "checks": checks,
     "not_applicable": na,
